@@ -208,6 +208,14 @@ class IterVal:
         return r
 
 
+class LiveEnum:
+    """enumerate(<list>): iterated over the live list, as Python does"""
+
+    def __init__(self, lst, start=0):
+        self.lst = lst
+        self.start = start
+
+
 class PyExc(Exception):
     """a Python-level exception raised by interpreted code"""
 
@@ -489,6 +497,16 @@ class Interp:
                 return Builtin(f"ndarray.{name}", lambda *a, _v=v, _n=name, **k: self._arr_method(_v, _n, a, k))
         elif isinstance(v, (str, list, dict, tuple)):
             return self._pymethod(v, name)
+        elif isinstance(v, (bytes, bytearray)):
+            if name in ("ljust", "rjust", "decode", "hex", "startswith", "endswith", "find", "count", "split", "strip", "rstrip"):
+                return Builtin(f"bytes.{name}", lambda *a, _m=getattr(v, name), **k: _m(*a, **k))
+        elif isinstance(v, type) and v in (dict, str, list, tuple, bytes, int, float):
+            if v is dict and name == "fromkeys":
+                return Builtin("dict.fromkeys", lambda it, val=None: {k: val for k in self.iterate(it)})
+            if v is str and name in ("join",):
+                return Builtin("str.join", lambda sep, it: sep.join(self.iterate(it)))
+            if v is int and name == "from_bytes":
+                return Builtin("int.from_bytes", lambda *a, **k: int.from_bytes(*a, **k))
         elif isinstance(v, Opaque):
             if default is not KeyError:
                 return default
@@ -672,7 +690,22 @@ class Interp:
                 self.exec_block(st.orelse, fr)
             return
         if isinstance(st, ast.For):
-            it = self.iterate(self.eval(st.iter, fr), st.iter)
+            itv = self.eval(st.iter, fr)
+            if isinstance(itv, list) or isinstance(itv, LiveEnum):
+                # Python iterates a list by index over the LIVE object: insertions/removals in the body are seen
+                def live():
+                    i = 0
+                    lst = itv.lst if isinstance(itv, LiveEnum) else itv
+                    while i < len(lst):
+                        self.steps += 1
+                        if self.steps > MAX_STEPS:
+                            raise AnalysisError("peval: step limit exceeded (a loop over a list that grows while it is iterated does not terminate)")
+                        yield ((i + itv.start, lst[i]) if isinstance(itv, LiveEnum) else lst[i])
+                        i += 1
+
+                it = live()
+            else:
+                it = self.iterate(itv, st.iter)
             broke = False
             for x in it:
                 self.assign(st.target, x, fr)
@@ -797,6 +830,8 @@ class Interp:
     def iterate(self, v, node=None):
         if isinstance(v, IterVal):
             return v.rest()
+        if isinstance(v, LiveEnum):
+            return [(i + v.start, x) for i, x in enumerate(v.lst)]
         if isinstance(v, (list, tuple)):
             return list(v)
         if isinstance(v, dict):
@@ -1351,7 +1386,7 @@ class Interp:
         b = {
             "len": Builtin("len", _len),
             "range": Builtin("range", _range),
-            "enumerate": Builtin("enumerate", lambda it, start=0: [(i + start, x) for i, x in enumerate(I.iterate(it))]),
+            "enumerate": Builtin("enumerate", lambda it, start=0: LiveEnum(it, start) if isinstance(it, list) else [(i + start, x) for i, x in enumerate(I.iterate(it))]),
             "zip": Builtin("zip", lambda *its: list(zip(*[I.iterate(x) for x in its]))),
             "reversed": Builtin("reversed", lambda it: list(reversed(I.iterate(it)))),
             "sum": Builtin("sum", _sum),
